@@ -70,7 +70,7 @@ def _dispatching_group() -> str:
 
 
 def _active(mask: int, step: int) -> bool:
-    return (mask >> step) & 1 == 1
+    return mask == -1 or (step < 30 and (mask >> step) & 1 == 1)
 
 
 def probe(detector, _p=None, **user):
@@ -103,18 +103,20 @@ def probe(detector, _p=None, **user):
         if _active(mask, count):
             raise EXC[b](p.get("msg", "boom"))
         return
-    if kind in ("set", "add") and not _active(mask, count):
+    if kind in ("set", "add", "padd") and not _active(mask, count):
         return
     if kind == "set":
         _set(detector, b, base + count, shape, p)
     elif kind == "add":
         _add(detector, b, base + count, shape, p)
+    elif kind == "padd":
+        _add_clusters(detector, base + count, shape)
     elif kind == "flux":
         ticks = px.to_ticks(detector.time_step)
         _add(detector, b, base * ticks, shape, p)
     elif kind == "conv":
         cur = px.level_of(detector.photon._array)
-        _add(detector, "charge", base * max(cur, 0), shape, p)
+        _add(detector, "charge", (base * max(cur, 0)) // 2, shape, p)
     elif kind == "collect":
         cur = px.level_of(detector.charge.array)
         _add(detector, "pixel", max(cur, 0), shape, p)
@@ -152,6 +154,21 @@ def _set(detector, b, level, shape, p):
         raise ValueError(b)
 
 
+def _add_clusters(detector, level, shape):
+    """Add `level` to the charge bucket as positioned clusters, one per pixel centre."""
+    geo = detector.geometry
+    cur = detector.charge.array
+    arr = px.level_array(level, shape, ramped=not cur.any())
+    ys, xs = np.mgrid[0:shape[0], 0:shape[1]]
+    n = arr.size
+    z = np.zeros(n)
+    detector.charge.add_charge(
+        particle_type="e", particles_per_cluster=arr.ravel().astype(float), init_energy=z,
+        init_ver_position=(ys.ravel() + 0.5) * geo.pixel_vert_size,
+        init_hor_position=(xs.ravel() + 0.5) * geo.pixel_horz_size,
+        init_z_position=z, init_ver_velocity=z, init_hor_velocity=z, init_z_velocity=z)
+
+
 def _add(detector, b, level, shape, p):
     if b == "charge":
         cur = px.level_of(detector.charge.array)
@@ -165,7 +182,7 @@ def _add(detector, b, level, shape, p):
         _set(detector, b, level, shape, p)
         return
     if b == "image":
-        cont.array = (cont.array + np.asarray(level * 8, dtype=cont.array.dtype)).astype(cont.array.dtype)
+        cont.array = (cont.array + np.asarray(level, dtype=cont.array.dtype)).astype(cont.array.dtype)
     elif b == "pixel" and px.level_of(cont._array) == 0 and not cont._array.any():
         cont.array = px.level_array(level, shape, p.get("fdt", "float64"))
     else:
